@@ -141,7 +141,7 @@ class FreqShiftMonitor:
 
 NS = [1, 2, 7, 64, 1023, 1024, 4096]
 SHAPES = [(1,), (4,), (4, 2), (2, 3, 2)]
-VAL_KINDS = ["whole", "frac", "edge", "beyond", "zero", "mixed", "huge"]
+VAL_KINDS = ["whole", "frac", "edge", "beyond", "zero", "mixed", "huge", "tiny"]
 SHAPE_KINDS = ["scalar", "one", "per_chan", "len1_first", "len1_last", "full"]
 
 
@@ -175,6 +175,9 @@ def make_shift_bins(rng, N, sshape, vk, sk):
         a = rng.uniform(-lim, lim, size=shp)
         if np.size(a) > 1:
             a.flat[0], a.flat[-1] = abs(a.flat[0]) + 0.5, -abs(a.flat[-1]) - 0.5
+    elif vk == "tiny":
+        # a small correction on wide-band data: 1e-10..9e-9 cycles per sample (e.g. 1 Hz at 200 MHz), far below one bin
+        a = 10.0 ** rng.uniform(-10, -8.05, size=shp) * N * rng.choice([-1, 1], size=shp)
     else:
         a = rng.uniform(0.5 * N, 0.95 * N, size=shp) * rng.choice([-1, 1], size=shp)
     return a
@@ -189,7 +192,9 @@ def wl_shift(ctx, idx, rng):
     sk = SHAPE_KINDS[int(rng.integers(len(SHAPE_KINDS)))]
     if N >= 4096 and len(sshape) > 1:
         sshape = sshape[:1]
-    dtype = gen.pick(rng, [np.complex64, np.complex128])
+    dtype = gen.pick(rng, [np.complex64, np.complex128]) if vk != "tiny" else np.complex128
+    if vk == "tiny":
+        N = max(N, 1024)
     use_dask = rng.random() < 0.25
     clsname = "DualPolarizationSignal" if (len(sshape) > 1 and sshape[1] == 2 and rng.random() < 0.7) else "BasebandSignal"
     x = gen.rand_data(rng, (N,) + sshape, dtype)
